@@ -35,6 +35,7 @@ EXPR = {"e":"name","n":x}      x            (fetched uncalled)
      | {"e":"is","a":x,"b":y}  x is y
      | {"e":"cat","a":EXPR,"b":EXPR}   _.str(a) + _.str(b)
      | {"e":"eq","a":EXPR,"b":EXPR}    (a) == (b)
+     | {"e":"gt","a":EXPR,"b":EXPR}    (a) > (b)
 """
 import re
 
@@ -73,6 +74,8 @@ def expr_src(e):
         return '_.str(%s) + _.str(%s)' % (expr_src(e['a']), expr_src(e['b']))
     if k == 'eq':
         return '(%s) == (%s)' % (expr_src(e['a']), expr_src(e['b']))
+    if k == 'gt':
+        return '(%s) > (%s)' % (expr_src(e['a']), expr_src(e['b']))
     raise ValueError(k)
 
 
@@ -280,8 +283,11 @@ class Printer:
             attrs = _ref_attrs(sx, st, n['ref'], pin=self.pin(n))
             self.emit('tag', _tag(sx, st, k, attrs, 'inline'), ('inline', k))
         elif k == 'if':
+            first = []
             for i, (c, b) in enumerate(zip(n['conds'], n['bodies'])):
                 attrs = _ref_attrs(sx, st, c, pin=self.pin(n, i))
+                if i == 0:
+                    first = attrs
                 self.emit('tag', _tag(sx, st, 'if' if i == 0 else 'elif',
                                       attrs, 'open' if i == 0 else 'cont'),
                           ('open' if i == 0 else 'cont', 'if'))
@@ -294,7 +300,7 @@ class Printer:
                 self.eol(n, j)
                 self.nodes(n['else'])
                 j += 1
-            self.close(n, 'if', j)
+            self.close(n, 'if', j, first)
         elif k == 'unless':
             attrs = _ref_attrs(sx, st, n['ref'], pin=self.pin(n))
             self.block1(n, 'unless', attrs, n['body'])
@@ -312,7 +318,7 @@ class Printer:
                 self.eol(n, 1)
                 self.nodes(n['else'])
                 j = 2
-            self.close(n, 'in', j)
+            self.close(n, 'in', j, attrs)
         elif k == 'with':
             attrs = _ref_attrs(sx, st, n['ref'], pin=self.pin(n))
             flags = []
@@ -371,12 +377,18 @@ class Printer:
                   ('open', name))
         self.eol(n, 0)
         self.nodes(body)
-        self.close(n, name, 1)
+        self.close(n, name, 1, attrs)
 
-    def close(self, n, name, j):
+    def close(self, n, name, j, open_attrs=()):
+        # optional end-tag arguments: none, a stray word, or the opening
+        # tag's own arguments repeated
         attrs = []
-        if not self.style.plain and self.style.pick(4) == 0:
-            attrs = ['x']
+        if not self.style.plain:
+            c = self.style.pick(5)
+            if c == 0:
+                attrs = ['x']
+            elif c == 1 and open_attrs:
+                attrs = list(open_attrs)
         self.emit('tag', _tag(self.syntax, self.style, name, attrs, 'close'),
                   ('close', name))
         self.eol(n, j)
